@@ -133,6 +133,7 @@ Proof.
   - auto.
   - reflexivity.
   - reflexivity.
+  - cbn; lia.
   - eapply wfenv_ext; [exact Hwf | cbn; lia].
   - apply linv_emit_line. exact Hl.
 Qed.
@@ -184,13 +185,14 @@ Proof.
 Qed.
 
 (* IAssert c: assert(xc, "Assert failed!") *)
-Lemma step_assert sc e st F c c' E stL l t (b : bool) :
-  rel sc e st E stL -> ctx_ok l F E c c' ->
+Lemma step_assert sc e st F E stL l t (b : bool) :
+  rel sc e st E stL ->
   denotes F E stL (aexpand l t) (SV (Values.VBool b)) ->
-  if b then exists stL', okstep sc e st F c c' E stL (fst (agen_one u l (IAssert t))) E stL' F
+  if b then exists stL', ExecS E (fst (agen_one u l (IAssert t))) stL (ROk (E, SigNormal) stL') /\
+                         cells_ext stL stL' /\ rel sc e st E stL'
   else exists ev stL', ExecS E (fst (agen_one u l (IAssert t))) stL (RErr ev stL') /\ SyltSem.trace st = s_out stL'.
 Proof.
-  intros Hrel Hctx Hd.
+  intros Hrel Hd.
   pose proof (r_wf _ _ _ _ _ _ _ Hrel) as Hwf. pose proof (r_linv _ _ _ _ _ _ _ Hrel) as Hli.
   cbn [agen_one fst].
   destruct (denotes_now _ _ _ _ _ Hd Hwf Hli) as (lv & Hv & st1 & Hev & _ & Hx1).
@@ -201,13 +203,83 @@ Proof.
   assert (Hg : Eval E (EVar "assert") stL (ROk (VBuiltin BAssert) stL)).
   { apply Eval_global; [eapply sget_not_V; [exact Hwf | apply not_fmt_var_assert] | apply (g_assert _ (li_genv _ Hli)) | reflexivity]. }
   destruct b.
-  - exists st1. split; [|split; [apply lframe_cells_ext; assumption | split; [eapply rel_cells_ext; eassumption | apply F_new_refl]]].
+  - exists st1. split; [|split; [exact Hx1 | eapply rel_cells_ext; eassumption]].
     apply ExecS_one. apply (Exec_call _ _ _ _ [VBool true; VStr "Assert failed!"]). eapply EvalCall_intro; [exact Hg | exact Hargs |].
     exact (Call_pure_builtin BAssert [VBool true; VStr "Assert failed!"] st1 I).
   - exists (VStr "Assert failed!"), st1. split.
     + apply ExecS_one. apply Exec_call_err. eapply EvalCall_intro; [exact Hg | exact Hargs |].
       exact (Call_pure_builtin BAssert [VBool false; VStr "Assert failed!"] st1 I).
     + rewrite (r_trace _ _ _ _ _ _ _ Hrel). symmetry. apply Hx1.
+Qed.
+
+(* IDefine t for a temporary (the result variable of and/or/if): `local V<t> = nil`; t is NOT frozen *)
+Lemma step_define_temp sc e st F c c' E stL l t :
+  rel sc e st E stL -> ctx_ok l F E c c' -> c <= t < c' -> 1 <= count_of u t ->
+  exists E' stL' p,
+    okstep sc e st F c c' E stL (fst (agen_one u l (IDefine t))) E' stL' F /\
+    sget (fmt_var t) E' = Some p.
+Proof.
+  intros Hrel [Hb Hl HF HE] Ht Hu.
+  pose proof (r_wf _ _ _ _ _ _ _ Hrel) as Hwf. pose proof (r_linv _ _ _ _ _ _ _ Hrel) as Hli.
+  cbn [agen_one]. assert (Hused : (0 <? count_of u t) = true) by (apply N.ltb_lt; lia). rewrite Hused. cbn [fst].
+  rewrite (aname_none l t) by (apply Hl; left; exact Ht).
+  assert (Hex : Exec E (SLocal [fmt_var t] [ENil]) stL
+                  (ROk (sset (fmt_var t) (s_ncell stL) E, SigNormal) (snd (alloc_cell stL VNil)))).
+  { pose proof (Exec_local E [fmt_var t] [ENil] stL [VNil] stL
+                  (EvalList_one _ _ _ _ (EvalMulti_single E ENil stL VNil stL eq_refl (Eval_nil E stL)))) as H.
+    rewrite bind_locals_one in H. exact H. }
+  exists (sset (fmt_var t) (s_ncell stL) E), (snd (alloc_cell stL VNil)), (s_ncell stL).
+  split; [|apply sget_sset_same].
+  split; [apply ExecS_one; exact Hex|]. split; [apply lframe_local; [exact Hwf | exact Hli | apply HE; exact Ht | exact Ht]|].
+  split; [apply rel_local_temp; [exact Hrel | lia] | apply F_new_refl].
+Qed.
+
+(* IAssign t a for a temporary t that is a local: `V<t> = xa` *)
+Lemma step_assign_temp sc e st F c c' E stL l t a p sv_ :
+  rel sc e st E stL -> bound <= c -> c <= t < c' -> 1 <= count_of u t ->
+  sget (fmt_var t) E = Some p -> alut_get l t = None ->
+  denotes F E stL (aexpand l a) sv_ ->
+  exists stL' lv,
+    okstep sc e st F c c' E stL (fst (agen_one u l (IAssign t a))) E stL' F /\
+    get_cell stL' p = lv /\ vrel sv_ lv.
+Proof.
+  intros Hrel Hb Ht Hu Hp Hnone Hd.
+  pose proof (r_wf _ _ _ _ _ _ _ Hrel) as Hwf. pose proof (r_linv _ _ _ _ _ _ _ Hrel) as Hli.
+  cbn [agen_one]. assert (Hused : (0 <? count_of u t) = true) by (apply N.ltb_lt; lia). rewrite Hused. cbn [fst].
+  unfold aexpand at 1. rewrite Hnone.
+  destruct (denotes_now _ _ _ _ _ Hd Hwf Hli) as (lv & Hv & st1 & _ & Hm & Hx1).
+  pose proof (Exec_assign_local E (fmt_var t) p (aexpand l a) stL [lv] st1 Hp (EvalList_one _ _ _ _ Hm)) as Hex.
+  cbn [first] in Hex.
+  assert (Hwf1 : wfenv E st1) by (eapply wfenv_ext; [exact Hwf | apply Hx1]).
+  assert (Hli1 : linv st1) by (eapply cells_ext_linv; eassumption).
+  exists (set_cell st1 p lv), lv. split; [|split; [apply get_cell_set_same | exact Hv]].
+  split; [apply ExecS_one; exact Hex|]. split; [|split; [|apply F_new_refl]].
+  - eapply lframe_trans; [apply lframe_cells_ext; eassumption | eapply lframe_set; eassumption].
+  - apply (rel_set_temp pv bound sc e st E st1 t p lv); [eapply rel_cells_ext; eassumption | lia | exact Hp].
+Qed.
+
+(* leaving a Lua block: the environment before the block, the state after it *)
+Lemma rel_restrict sc e st E E' stL' :
+  rel sc e st E' stL' -> env_incl E E' -> (forall v, In v sc -> sget (fmt_var v) E <> None) ->
+  rel sc e st E stL'.
+Proof.
+  intros [Hv Hb Hi Hp Hpb HpE HpG Hwf Ht Hl] Hincl Hdom. constructor.
+  - intros w Hin. destruct (Hv w Hin) as (cc & x & p & H1 & H2 & H3 & H4).
+    exists cc, x, p. repeat split; auto.
+    destruct (sget (fmt_var w) E) as [q|] eqn:Hq; [|exfalso; eapply Hdom; eassumption].
+    rewrite (Hincl _ _ Hq) in H3. exact H3.
+  - exact Hb.
+  - exact Hi.
+  - exact Hp.
+  - exact Hpb.
+  - destruct (sget (fmt_var pv) E) as [q|] eqn:Hq; [|reflexivity]. rewrite (Hincl _ _ Hq) in HpE. discriminate.
+  - exact HpG.
+  - destruct Hwf as [HV Hinj Hal]. constructor.
+    + intros x p H. eapply HV. apply Hincl. exact H.
+    + intros x y p Hx Hy. eapply Hinj; apply Hincl; eassumption.
+    + intros x p H. eapply Hal. apply Hincl. exact H.
+  - exact Ht.
+  - exact Hl.
 Qed.
 
 End Sim.
